@@ -280,3 +280,123 @@ for _m in ("transform", "inverse_transform"):
              ensures=[("wrapped-transformer-applied-to-the-series-as-one-column-result-keeps-the-index", _adapt_post, {"modular": False})],
              frame=lambda A: [A.self, A.Z],
              notes=["univariate series; the fitted sklearn-like transformer is abstract (returns an arbitrary (n, 1) array)"])
+
+
+# ----------------------------------------------------------------------------- piecewise aggregate approximation (fractional frames)
+def _paa_inputs(B, case):
+    I = B.I
+    ok, cls = I.mod_global(I.src.module("sktime.transformations.panel.dictionary_based._paa"), "PAA")
+    obj = SObj(cls)
+    m = B.int("num_intervals", 1)
+    n = B.int("num_insts", 0)
+    L = B.int("num_atts", 1)
+    B.assume(m <= L)                                     # _check_parameters (called by transform before) rejects the rest
+    X2 = B.arr("X2", dtype="real", shape=[n, L])         # the tabular view of the nested column
+    P = z3.Function("prefix", z3.IntSort(), z3.IntSort(), z3.RealSort())          # P(i, q) = X2[i, 0] + ... + X2[i, q - 1]
+    B.I.ctx.inputs["prefix"] = P
+    i_, q_ = z3.Int("pi"), z3.Int("pq")
+    B.assume(z3.ForAll([i_], P(i_, 0) == 0))
+    B.assume(z3.ForAll([i_, q_], z3.Implies(z3.And(q_ >= 0, q_ < L), P(i_, q_ + 1) == P(i_, q_) + Z(X2.fn(i_, q_)))))
+    ell = z3.ToReal(L) / z3.ToReal(m)
+    B.hint("frame-length-at-least-one", ell >= 1)
+    # frame boundaries bnd(f) = f * l as a ghost function given by its LINEAR characterisation; the lemma
+    # C14/paa-frame-boundaries shows that f * l satisfies exactly these axioms
+    Bd = z3.Function("bnd", z3.IntSort(), z3.RealSort())
+    B.I.ctx.inputs["bnd"] = Bd
+    f_, g_ = z3.Int("bf"), z3.Int("bg")
+    B.assume(Bd(0) == 0)
+    B.assume(z3.ForAll([f_], Bd(f_ + 1) == Bd(f_) + ell))
+    B.assume(Bd(m) == z3.ToReal(L))
+    B.assume(z3.ForAll([f_, g_], z3.Implies(f_ < g_, Bd(f_) < Bd(g_))))
+    obj.attrs.update(_is_fitted=True, num_intervals=m)
+    nested = B.opaque("nested column")
+    obj.ghost = dict(X2=X2, P=P, m=m, L=L, n=n, nested=nested, Bd=Bd)
+    return {"self": obj, "X": nested}
+
+
+contract(f"{DP}::from_nested_to_2d_array", "C14", cases=["-"], assumed=True, inputs=lambda B, case: {},
+         applicable=lambda A: isinstance(A.X, Opaque) and _paa_ghost() is not None and A.X is _paa_ghost()["nested"],
+         returns=lambda A: _paa_ghost()["X2"],
+         notes=["ASSUMED (PAA): from_nested_to_2d_array(column, return_numpy=True) is the (instances x time points) table of the column "
+                "(bounded tier: C15)"])
+
+
+def _paa_ghost():
+    a = getattr(_cur(), "root_args", None)
+    s = getattr(a, "self", None) if a is not None else None
+    return getattr(s, "ghost", None)
+
+
+def _W(g, i, t):
+    """mass of series i on [0, t): prefix sum up to floor(t) plus the fraction of the cell that contains t"""
+    P, X2 = g["P"], g["X2"]
+    k = z3.ToInt(t)
+    return P(Z(i), k) + (t - z3.ToReal(k)) * Z(X2.fn(i, k))
+
+
+def _paa_mean(g, i, f, ell):
+    """frame f of series i: mean of the step function over [f * ell, (f + 1) * ell)"""
+    a, b = g["Bd"](Z(f)), g["Bd"](Z(f) + 1)
+    return (_W(g, i, b) - _W(g, i, a)) / ell
+
+
+def _paa_inner_inv(S):
+    g = S.A.self.ghost
+    ell = Z(S.frame_length)
+    L, m = g["L"], g["m"]
+    i = S.i
+    cf, cs, fs = Z(S.current_frame), Z(S.current_frame_size), Z(S.frame_sum)
+    k = Z(S.k)
+    fr = S.frames
+    start = z3.ToReal(k) - cs                                     # where the current frame begins (= bnd(current_frame))
+    base = [Eq(S.frame_length, z3.ToReal(L) / z3.ToReal(m)), Z(i) >= 0, Z(i) < Z(g["n"]), S.series.len is L or Eq(S.series.len, L),
+            ForAll(lambda q: Eq(S.series.fn(q), g["X2"].fn(i, q)), 0, L, "q"),
+            cf >= 0, cs >= 0, cs < ell, start == g["Bd"](cf), fs == g["P"](Z(i), k) - _W(g, i, start)]
+    if isinstance(fr, SList):
+        return And(*base, len(fr.items) == 0, cf == 0)
+    return And(*base, Eq(fr.len, cf), ForAll(lambda f: Eq(fr.fn(f), _paa_mean(g, i, f, ell)), 0, cf, "f"))
+
+
+def _paa_frames_havoc(I, S):
+    nfr = I.ctx.fresh_int("len(frames)")
+    I.ctx.assume(nfr >= 0)
+    f = I.ctx.fresh_fun("frames", z3.IntSort(), z3.RealSort())
+    return SArr((nfr,), lambda j: f(Z(j)), "real", "list")
+
+
+def _paa_outer_events(S, evs):
+    """instance i contributes ONE series of exactly num_intervals means, frame f = mean over [f * l, (f + 1) * l)"""
+    g = S.A.self.ghost
+    d = S.data
+    app = d.appended if isinstance(d, Opaque) else d.items
+    if len(app) != 1 or not isinstance(app[0], SSeries):
+        return False
+    s = app[0]
+    ell = z3.ToReal(g["L"]) / z3.ToReal(g["m"])
+    return And(Eq(s.values.len, g["m"]), ForAll(lambda f: Eq(s.values.fn(f), _paa_mean(g, S.k, f, ell)), 0, g["m"], "f"))
+
+
+contract(f"{PAA}::PAA._perform_paa_along_dim", "C14", cases=["-"], inputs=_paa_inputs,
+         invariants={0: lambda S: True, 1: _paa_inner_inv}, events={0: _paa_outer_events},
+         loop_havoc={0: {"data": _acc_havoc}, 1: {"frames": _paa_frames_havoc}},
+         ensures=[("one-column-holding-the-per-instance-series",
+                   lambda A, r: len([e for e in __import__("contracts.C07_evaluate", fromlist=["trace"]).trace() if e.method == "table.setitem"]) == 1,
+                   {"modular": False})],
+         frame=lambda A: [A.self],
+         notes=["frame length l = num_atts / num_intervals may be fractional; the series is read as a step function, prefix(i, q) is its "
+                "running sum (recursive ghost function); exact real arithmetic -- the 'last frame lost due to double imprecision' branch is "
+                "floating-point behaviour and is not decided"])
+
+
+@lemma("C14/paa-frame-boundaries", "C14", uses=[f"{PAA}::PAA._perform_paa_along_dim"])
+def _paa_boundaries(B):
+    """bnd(f) = f * l with l = L / m satisfies the four axioms the PAA contract assumes about the ghost function bnd
+    (and bnd(0) = 0 with the recurrence determines bnd on the naturals), so the contract speaks about the frames
+    [f * l, (f + 1) * l)"""
+    L, m = B.int("L", 1), B.int("m", 1)
+    B.assume(m <= L)
+    ell = z3.ToReal(L) / z3.ToReal(m)
+    f, g = B.int("f"), B.int("g")
+    bnd = lambda x: z3.ToReal(x) * ell
+    return [("bnd(0)=0", bnd(z3.IntVal(0)) == 0), ("recurrence", bnd(f + 1) == bnd(f) + ell), ("tiles-the-series", bnd(m) == z3.ToReal(L)),
+            ("strictly-increasing", Implies(f < g, bnd(f) < bnd(g))), ("frame-length-at-least-one", ell >= 1)]
